@@ -21,6 +21,11 @@ LEVEL = 'exploration'
 BUDGET = {'quick': 45, 'thorough': 420}
 # deterministic sub-checks repeated in a `python -O` child (core.optimized_child)
 OPT_SUBS = ('probe', 'pairs')
+# documented call interface the generated calls rely on (vcheck/callstyle.py)
+INTERFACE = [('oslo_utils.strutils', ['mask_password'])]
+# pairs of sampled cases are run against each other under every single
+# preemption inside these modules (core.preempt_pair)
+PREEMPT_MODULES = ['oslo_utils.strutils']
 RULE = ('single: every pinned key (35) x letter case / digit suffix (quick: '
         'lower, aLtErNaTiNg+7; thorough: lower, UPPER, Capitalised, '
         'aLtErNaTiNg, lower+1, UPPER+2024) x every rendering (27 '
@@ -420,6 +425,38 @@ def single_table(col, key, variants):
     col.distinct_extra += nontrivial
 
 
+def many_table(col):
+    """One key, one rendering, many secrets in one message (listings of
+    users, tokens, options): 19, 40 and 130 items, every one masked."""
+    sub = 'many'
+    routed = still_failing()
+    for ri, rname in enumerate(RNAMES):
+        cls = RENDERINGS[rname][2]
+        key = PINNED_KEYS[(ri * 3) % len(PINNED_KEYS)]
+        for count in (19, 40, 130):
+            parts = ['listing: ']
+            for i in range(count):
+                item = {'key': key, 'case': 'lower', 'r': rname,
+                        'secret': 'S%03dx+Zq' % i}
+                if '{p}' in RENDERINGS[rname][0]:
+                    item['prefix'] = 'x.'
+                if '{f}' in RENDERINGS[rname][0]:
+                    item['flag'] = '-v'
+                parts.append(item)
+                parts.append(' ; ' if i % 2 else '\n')
+            case = {'mask': None, 'parts': parts}
+            hit = findings_of(case) & routed
+            if hit:
+                for h in sorted(hit):
+                    col.known(sub, h)
+                continue
+            check_message(case, sub)
+            col.case(sub, (rname, key, count), True,
+                     ['r=' + rname, 'class=' + cls, 'items=%d' % count],
+                     {'rendering': rname, 'key': key, 'items': count})
+    col.exhaustive.setdefault(sub, False)
+
+
 # --------------------------------------------------------------------------
 # compose: Hypothesis messages
 
@@ -803,7 +840,7 @@ def first_use_threads(col, trials, nthreads=8):
 
 
 def tasks(tier, seed):
-    out = [Task('probe', probe_known),
+    out = [Task('probe', probe_known), Task('many', many_table),
            Task('threads', first_use_threads,
                 trials=12 if tier == 'quick' else 120)]
     for key in (PINNED_KEYS if tier == 'thorough' else PINNED_KEYS[::5]):
